@@ -4,7 +4,7 @@
    ILP-iv below).  Only statements; proofs are in Proofs/IlpP14.v. *)
 From Coq Require Import ZArith Bool List.
 Import ListNotations.
-From Verif Require Import Model.Val Gen.Src_Ilp Model.IlpModel Proofs.IlpP Proofs.IlpP11 Proofs.IlpP10 Proofs.IlpP14.
+From Verif Require Import Model.Val Gen.Src_Ilp Model.IlpModel Proofs.IlpP Proofs.IlpP11 Proofs.IlpP10 Proofs.IlpP14 Proofs.IlpP14s.
 Open Scope Z_scope.
 
 (* the objective counts exactly the task graphs all of whose reward tasks are placed (or running) *)
@@ -12,6 +12,17 @@ Theorem C14_ilp_objective_sound : forall I a, sat (gen_ilp I) a -> i_goal I = Go
   objective (gen_ilp I) a = goodput_a I a.
 Proof. exact objective_is_goodput. Qed.
 Print Assumptions C14_ilp_objective_sound.
+
+(* SOUNDNESS: for a well-formed instance (distinct task names, non-negative runtimes/demands/capacities, dependent
+   decided tasks linked by co-decided parents, no raising input, 0 <= remaining <= runtime for running tasks) the plan
+   read back from ANY satisfying assignment is a feasible plan of the specification, and the objective is its goodput *)
+Theorem C14_ilp_sound : forall I a, sat (gen_ilp I) a -> wf I -> i_goal I = Goodput ->
+  feasible_clb I (readback I a) = true /\ objective (gen_ilp I) a = goodput I (readback I a).
+Proof. exact C14_sound. Qed.
+Print Assumptions C14_ilp_sound.
+Theorem C14_ilp_sound_nonvacuous : exists I a, sat (gen_ilp I) a /\ wf I /\ i_goal I = Goodput /\ goodput I (readback I a) = 1.
+Proof. exact C14_sound_nonvacuous. Qed.
+Print Assumptions C14_ilp_sound_nonvacuous.
 
 (* F11-ii, general form: the capacity row of t1 charges t2 and t3 together as soon as each overlaps t1
    somewhere (tau2, tau3 may differ), so three tasks whose demands exceed the capacity can never all be
